@@ -93,6 +93,8 @@ def render_module(mod_defs, mi, reload_marker, conv_variant=0):
              "def _conv_color(text):",
              "    if text == 'BAD':",
              "        raise ValueError('cannot convert BAD')",
+             "    if text == 'WORSE':",
+             "        raise KeyError(text)",
              "    return text.lower()%s" % (" + '#%d'" % conv_variant if conv_variant else ""),
              "_conv_color.pattern = r'[A-Z]+'",
              "def _conv_num(text):",
@@ -283,8 +285,9 @@ def evaluate(seed, hashseed, root, stats):
             elif variant == "bad-convert":
                 if not any(t[0] == "fld" and t[2] == "Color" for t in d["tokens"]):
                     continue
+                bad = rng.choice(["BAD", "WORSE"])
                 for c in W.COLORS:
-                    text = text.replace(c, "BAD")
+                    text = text.replace(c, bad)
             types = ["given", "when", "then"] if d["type"] == "step" else [d["type"]]
             stype = rng.choice(types)
             if rng.random() < 0.15:
@@ -329,7 +332,7 @@ def evaluate(seed, hashseed, root, stats):
                 gi += 1
                 raw = mm.group(gi)
                 if tok[0] == "fld" and tok[2] == "Color" and chosen["matcher"] != "re" and \
-                        "BAD" in [x.strip() for x in (raw or "").split(",")]:
+                        set(["BAD", "WORSE"]) & set(x.strip() for x in (raw or "").split(",")):
                     conv_fail = True
                 val = None if (conv_fail or raw is None) else W.convert_value(tok[2], raw, chosen["matcher"], W.tok_card(tok))
                 if W.tok_card(tok):
